@@ -4,6 +4,10 @@
 //        regdump dict       dictionary only
 //        regdump inst A B.. instances only, skipping entities A B .. (used to continue after a crash in one constructor);
 //                           an argument w:A keeps the instance of A but does not write it
+//        regdump find FILE  look names up the way an application does: each line of FILE is `S name` (Registry::FindSchema),
+//                           `T name` (FindType) or `E name` (FindEntity, then ObjCreate by that name) -> {"k":"find",...}
+//        regdump read FILE  read the Part 21 file with STEPfile::ReadExchangeFile -> one {"k":"read-inst"} per instance
+//                           id listed in FILE.ids, then {"k":"read",...}
 // After the {"k":"inst"} record of an entity the fresh instance is written with STEPwrite: {"k":"inst-p21","entity":..,"text":..}
 // Only getters of the dictionary classes are used (Registry iteration, descriptor accessors, ObjCreate).
 // The library's cout chatter is discarded; every line is flushed so that a crash leaves the lines before it.
@@ -17,11 +21,15 @@ extern void SchemaInit( class Registry & );
 #include "clstepcore/selectTypeDescriptor.h"
 #include "clstepcore/inverseAttribute.h"
 #include "clstepcore/derivedAttribute.h"
+#include "clstepcore/instmgr.h"
+#include "cleditor/STEPfile.h"
+#include <fstream>
 #include <iostream>
 #include <sstream>
 #include <string>
 #include <cstdio>
 #include <cstring>
+#include <cstdlib>
 
 static std::string js( const char * s ) {
     if( !s ) {
@@ -181,6 +189,56 @@ int main( int argc, char ** argv ) {
     bool want_inst = !( argc > 1 && !strcmp( argv[1], "dict" ) );
     bool want_dict = !( argc > 1 && !strcmp( argv[1], "inst" ) );
     Registry reg( SchemaInit );
+    if( argc > 2 && !strcmp( argv[1], "find" ) ) {
+        std::ifstream in( argv[2] );
+        std::string kind, name;
+        while( in >> kind >> name ) {
+            std::string o = "{\"k\":\"find\",\"what\":" + js( kind ) + ",\"name\":" + js( name );
+            if( kind == "S" ) {
+                const Schema * x = reg.FindSchema( name.c_str() );
+                o += std::string( ",\"found\":" ) + ( x ? "true" : "false" ) + ",\"dname\":" + js( x ? x->Name() : 0 );
+            } else if( kind == "T" ) {
+                const TypeDescriptor * x = reg.FindType( name.c_str() );
+                o += std::string( ",\"found\":" ) + ( x ? "true" : "false" ) + ",\"dname\":" + js( x ? x->Name() : 0 );
+            } else {
+                const EntityDescriptor * x = reg.FindEntity( name.c_str() );
+                o += std::string( ",\"found\":" ) + ( x ? "true" : "false" ) + ",\"dname\":" + js( x ? x->Name() : 0 );
+                printf( "{\"k\":\"find-begin\",\"name\":%s}\n", js( name ).c_str() );
+                fflush( stdout );
+                SDAI_Application_instance * se = reg.ObjCreate( name.c_str() );
+                bool ok = se && se != ENTITY_NULL;
+                o += std::string( ",\"created\":" ) + ( ok ? "true" : "false" ) + ",\"ename\":" + js( ok ? se->EntityName() : 0 );
+            }
+            printf( "%s}\n", o.c_str() );
+            fflush( stdout );
+        }
+        printf( "{\"k\":\"done\"}\n" );
+        fflush( stdout );
+        return 0;
+    }
+    if( argc > 2 && !strcmp( argv[1], "read" ) ) {
+        std::ostringstream & esink = *new std::ostringstream;
+        std::cerr.rdbuf( esink.rdbuf() );     // the reader's diagnostics; sanitizer reports do not go through std::cerr
+        InstMgr instances;
+        STEPfile sfile( reg, instances, "", false );
+        sfile.ReadExchangeFile( argv[2] );
+        std::ifstream in( ( std::string( argv[2] ) + ".ids" ).c_str() );
+        std::string w;
+        while( in >> w ) {
+            int id = atoi( w.c_str() );
+            MgrNode * mn = instances.FindFileId( id );
+            SDAI_Application_instance * se = mn ? mn->GetApplication_instance() : 0;
+            bool ok = se && se != ENTITY_NULL;
+            printf( "{\"k\":\"read-inst\",\"id\":%d,\"present\":%s,\"ename\":%s,\"count\":%d}\n", id, ok ? "true" : "false",
+                    js( ok ? se->EntityName() : 0 ).c_str(), ok ? se->AttributeCount() : -1 );
+            fflush( stdout );
+        }
+        printf( "{\"k\":\"read\",\"n\":%d,\"severity\":%d,\"msg\":%s,\"log\":%s}\n", instances.InstanceCount(), ( int )sfile.Error().severity(),
+                js( esink.str().substr( 0, 600 ) ).c_str(), js( sink.str().substr( 0, 1500 ) ).c_str() );
+        printf( "{\"k\":\"done\"}\n" );
+        fflush( stdout );
+        return 0;
+    }
     const Schema * s;
     const EntityDescriptor * e;
     const TypeDescriptor * t;
